@@ -8,6 +8,7 @@ import (
 	"reflect"
 	"sort"
 	"strconv"
+	"strings"
 
 	"github.com/jrhy/mast"
 )
@@ -238,6 +239,9 @@ func (v *ValDialect) Val(i int) interface{} {
 		return []byte{byte(i), 0, byte(i >> 8), 0xfe}
 	case "lval":
 		return LVal{L: []int{i, i + 1}, S: strconv.Itoa(i)}
+	case "bigstr":
+		// values of 1.2-4.8 KB: a node of a few entries exceeds typical 4 KiB buffers
+		return strings.Repeat(string(rune('a'+i%26)), 1200+(i%7)*600) + "#" + strconv.Itoa(i)
 	case "ptr":
 		// a fresh allocation per call: equal values are distinct objects
 		return &SVal{X: i, Y: "p" + strconv.Itoa(i%3)}
@@ -261,6 +265,8 @@ func (v *ValDialect) Like() interface{} {
 		return LVal{}
 	case "ptr":
 		return &SVal{}
+	case "bigstr":
+		return ""
 	case "nil":
 		return nil
 	}
@@ -284,4 +290,4 @@ func (v *ValDialect) Distinct(i, j int) bool {
 }
 
 var allKeyDialects = []string{"int", "int64", "uint", "uint64", "string", "bytes", "userkey", "struct"}
-var allValDialects = []string{"int", "string", "struct", "bytes", "lval", "ptr", "nil"}
+var allValDialects = []string{"int", "string", "struct", "bytes", "lval", "ptr", "bigstr", "nil"}
